@@ -36,22 +36,48 @@ TICK = 2.0 ** -12
 
 class VLoop2(VLoop):
     """VLoop whose clock keeps running while a `pv_block` executor job waits for its release (such a job stands for a
-    thread that is busy for a virtual duration); from its release on it is counted like any real job, so that the loop
-    polls in real time until the thread has actually returned."""
+    thread that is busy for a virtual duration).  From its release until the THREAD has really returned the job is counted
+    like any real job, so the loop polls in real time and the completion lands on the virtual instant of the release,
+    whatever the machine load.  (The asyncio future of a cancelled call is done long before its thread: counting is tied
+    to the thread, not to that future.)"""
+
+    def __init__(self):
+        super().__init__()
+        self._v_vjobs = {}          # threading.Event -> concurrent future of the thread waiting on it
+        self._v_vreleased = set()
 
     def run_in_executor(self, executor, func, *args):
         f = func
         while isinstance(f, functools.partial):
             f = f.func
-        if getattr(f, "__name__", "") != "pv_block":
+        if getattr(f, "__name__", "") != "pv_block" or not args:
             return super().run_in_executor(executor, func, *args)
-        fut = asyncio.SelectorEventLoop.run_in_executor(self, executor, func, *args)
+        if executor is None:
+            executor = self._default_executor
+            if executor is None:
+                import concurrent.futures
 
-        def done(_f):
-            self._v_executor_jobs -= 1          # balanced by release_event()
-
-        fut.add_done_callback(done)
+                executor = concurrent.futures.ThreadPoolExecutor(thread_name_prefix="pv")
+                self._default_executor = executor
+        ev = args[0]
+        cfut = executor.submit(func, *args)
+        self._v_vjobs[ev] = cfut
+        fut = asyncio.wrap_future(cfut, loop=self)      # its thread-side callback is registered first ...
+        cfut.add_done_callback(lambda _c: self.call_soon_threadsafe(self._v_thread_done, ev))      # ... ours second
         return fut
+
+    def _v_thread_done(self, ev):
+        if ev in self._v_vreleased:
+            self._v_vreleased.discard(ev)
+            self._v_executor_jobs -= 1
+
+    def v_release(self, ev, count=True):
+        """let the thread waiting on `ev` go; with count=True the loop waits (in real time) for it to return"""
+        cfut = self._v_vjobs.get(ev)
+        if count and cfut is not None and not cfut.done() and ev not in self._v_vreleased:
+            self._v_vreleased.add(ev)
+            self._v_executor_jobs += 1
+        ev.set()
 
 
 def run_virtual2(coro):
@@ -263,8 +289,7 @@ async def run_case(case):
         def release_event(key):
             if key not in released:
                 released.add(key)
-                loop._v_executor_jobs += 1      # pylint: disable=protected-access
-                hass.data["pv_EV"][key].set()
+                loop.v_release(hass.data["pv_EV"][key])
         for i, tk in enumerate(case["tasks"]):
             if tk["kind"] == "st":
                 hass.states.async_set(f"pyscript.pv_v{i}", "idle")
@@ -384,7 +409,7 @@ async def run_case(case):
         for key in list(hass.data["pv_EV"]):
             if key not in released:             # threads of runs that were cancelled / never reached: let them go
                 released.add(key)
-                hass.data["pv_EV"][key].set()
+                loop.v_release(hass.data["pv_EV"][key], count=False)
 
         final_tasks = []
         for i in range(ntasks):
